@@ -127,6 +127,8 @@ def run(ck, prog, tier, load):
         for bb in cs:
             gm = ge = False
             for c, lab, a in meta.guards(bb):
+                if not isinstance(lab, bool) and isinstance(lab, int) and lab == marker and e_bins(c, ("BitAnd",)):
+                    gm = True  # `match second & 0x7F { 126 => .. }`: the arm of an integer switch
                 n = norm_cmp(c, lab) if isinstance(lab, bool) else None
                 if not n:
                     continue
@@ -134,6 +136,8 @@ def run(ck, prog, tier, load):
                     gm = True
                 if n[0] == "Lt" and n[3] is False and n[2][:3] == ("const", None, minlen) and e_calls(n[1], r"len$"):
                     ge = True
+                if n[0] == "Le" and n[3] is True and n[1][:3] == ("const", None, minlen) and e_calls(n[2], r"len$"):
+                    ge = True  # the mirrored spelling `!(10 > len)`
             ck.ob("C14-c.len-marker-%d" % marker, meta.npath, gm and ge, meta, bb, "wide length read under marker == %d (%s) and src.len() >= %d (%s)" % (marker, gm, minlen, ge))
     wm = prog.one(r"^actix_http::ws::frame::Parser::write_message$")
     for fn, want_g in ((r"BufMut::put_u16$|put_u16$", {126: False, 65535: True}), (r"BufMut::put_u64$|put_u64$", {126: False, 65535: False})):
